@@ -601,6 +601,22 @@ def fold_ifexp(st):
   return st
 
 
+def stmts_in_order(node):
+  """the statements below node in execution (document) order of the normal
+  form - NOT by line number: statements inlined from a helper keep the
+  helper's line numbers"""
+  out = []
+
+  def walk(n):
+    for f in ('body', 'orelse', 'handlers', 'finalbody'):
+      for s in getattr(n, f, []) or []:
+        if isinstance(s, ast.stmt):
+          out.append(s)
+        walk(s)
+  walk(node)
+  return out
+
+
 def expand_aug(st):
   """`x op= y` as the equivalent `x = x op y` statement (a synthesised
   ast.Assign with the position of the original); other statements are
